@@ -30,6 +30,9 @@ def run(prop, tier, seed, work):
     if prop == "C18":
         import checks_config
         return checks_config.run18(prop, tier, seed, work)
+    if prop == "C12":
+        import checks_tags
+        return checks_tags.run(prop, tier, seed, work)
     raise vlib.MachineryError("no check for " + prop)
 
 
